@@ -25,3 +25,8 @@ COSIM_MAIN_BEGIN
     bool r1 = AQT_ComputeRangeTail(&t1, nc, mx), r2 = slice_AQT_ComputeRangeTail(&t2, nc, mx); COSIM_EQ(r1, r2, "ret"); if (r1 && r2) COSIM_MEMEQ(&t1.range_, &t2.range_, 4, "range"); }
   COSIM_END();
 COSIM_MAIN_END
+/* helpers of the parameter-transport slices (defined as static inline in contracts/quant.c for the verifier); the driver does not exercise those slices */
+struct EncoderBuffer; bool EncoderBuffer_Encode_u8(struct EncoderBuffer *self, const uint8_t *data);
+bool EncoderBuffer_Encode_u8_val(struct EncoderBuffer *b, uint8_t v) { return EncoderBuffer_Encode_u8(b, &v); }
+bool AQTP_is_initialized(const struct AQTP *self) { return self->quantization_bits_ != -1; }
+void fvec_resize(struct fvec *v, size_t n) { for (size_t i = v->size; i < n; ++i) v->data[i] = 0.0f; v->size = n; }
